@@ -38,7 +38,7 @@ func vpGraph(kind int) *Graph {
 func VP_C08_execute() {
 	max := 5
 	if vp.Tier() == 1 {
-		max = 7
+		max = 6
 	}
 	n := vp.Choice(max + 1)
 	line := vp.Bytes(n)
